@@ -2,7 +2,11 @@
 
 package session
 
-import "net"
+import (
+	"net"
+
+	"tunnox-core/internal/protocol/session/tunnel"
+)
 
 // Export shims for the verification harness (injected by -overlay; never committed to the repo).
 
@@ -33,4 +37,21 @@ func (s *SessionManager) VerifBridgeCount() int {
 	s.bridgeLock.RLock()
 	defer s.bridgeLock.RUnlock()
 	return len(s.tunnelBridges)
+}
+
+// VerifStartBridgeCC is VerifStartBridge with a cloud control (traffic statistics backend), as
+// startSourceBridge passes s.cloudControl.
+func (s *SessionManager) VerifStartBridgeCC(tunnelID, mappingID string, src net.Conn, limit int64, cc tunnel.CloudControlAPI) *TunnelBridge {
+	bridge := NewTunnelBridge(s.Ctx(), &TunnelBridgeConfig{
+		TunnelID:       tunnelID,
+		MappingID:      mappingID,
+		SourceConn:     src,
+		BandwidthLimit: limit,
+		CloudControl:   cc,
+	})
+	s.bridgeLock.Lock()
+	s.tunnelBridges[tunnelID] = bridge
+	s.bridgeLock.Unlock()
+	go s.runBridgeLifecycle(tunnelID, bridge)
+	return bridge
 }
